@@ -2423,7 +2423,7 @@ DLLIMPORT int cfg_setstr(cfg_t *cfg, const char *name, const char *value)
 
 static int cfg_addlist_internal(cfg_opt_t *opt, unsigned int nvalues, va_list ap)
 {
-	int result = CFG_FAIL;
+	int result = CFG_SUCCESS;
 	unsigned int i;
 
 	for (i = 0; i < nvalues; i++) {
@@ -2450,6 +2450,10 @@ static int cfg_addlist_internal(cfg_opt_t *opt, unsigned int nvalues, va_list ap
 			result = CFG_SUCCESS;
 			break;
 		}
+
+		/* Tell the caller when an element could not be stored */
+		if (result != CFG_SUCCESS)
+			break;
 	}
 
 	return result;
@@ -2458,6 +2462,7 @@ static int cfg_addlist_internal(cfg_opt_t *opt, unsigned int nvalues, va_list ap
 DLLIMPORT int cfg_setlist(cfg_t *cfg, const char *name, unsigned int nvalues, ...)
 {
 	va_list ap;
+	int rc;
 	cfg_opt_t old;
 	cfg_opt_t *opt = cfg_getopt(cfg, name);
 
@@ -2475,8 +2480,20 @@ DLLIMPORT int cfg_setlist(cfg_t *cfg, const char *name, unsigned int nvalues, ..
 	opt->nvalues = 0;
 	opt->flags |= CFGF_MODIFIED; /* also when the new list is empty */
 	va_start(ap, nvalues);
-	cfg_addlist_internal(opt, nvalues, ap);
+	rc = cfg_addlist_internal(opt, nvalues, ap);
 	va_end(ap);
+	if (rc != CFG_SUCCESS) {
+		/* Keep the old list, drop what was stored of the new one */
+		cfg_opt_t part = *opt;
+
+		part.comment = NULL;
+		cfg_free_value(&part);
+		opt->values = old.values;
+		opt->nvalues = old.nvalues;
+		opt->flags = old.flags;
+
+		return rc;
+	}
 	cfg_free_value(&old);
 	opt->comment = old.comment;
 
@@ -2486,6 +2503,7 @@ DLLIMPORT int cfg_setlist(cfg_t *cfg, const char *name, unsigned int nvalues, ..
 DLLIMPORT int cfg_addlist(cfg_t *cfg, const char *name, unsigned int nvalues, ...)
 {
 	va_list ap;
+	int rc;
 	cfg_opt_t *opt = cfg_getopt(cfg, name);
 
 	if (!opt || !is_set(CFGF_LIST, opt->flags)) {
@@ -2498,10 +2516,10 @@ DLLIMPORT int cfg_addlist(cfg_t *cfg, const char *name, unsigned int nvalues, ..
 		opt->flags &= ~CFGF_RESET;
 
 	va_start(ap, nvalues);
-	cfg_addlist_internal(opt, nvalues, ap);
+	rc = cfg_addlist_internal(opt, nvalues, ap);
 	va_end(ap);
 
-	return CFG_SUCCESS;
+	return rc;
 }
 
 DLLIMPORT cfg_t *cfg_addtsec(cfg_t *cfg, const char *name, const char *title)
